@@ -106,6 +106,13 @@ def doc_cases(ctx, budget):
         out.append(('PARA ' + 'a' * n + '\n  some text\n\n  more text\n', 'doc', ''))
         out.append(('SEC ' + 'a' * n + '\n  some text\n  SUBSEC (1)\n    x\n  SUBSEC (2)\n    y\n', 'hier_element', 'chp_1'))
         out.append(('PART ' + ' '.join('w%d' % i for i in range(n // 4)) + ' - h\n  SEC 1\n    x\n  SEC 2\n    y\n', 'act', ''))
+    # different elements, one abbreviation: a hierarchical LIST and a block list both shorten to "list" - side by side where blocks and
+    # hierarchical elements are siblings (open-structure bodies, quotes, attachments), in both orders, numbered to collide
+    for root in ('doc', 'statement', 'debateReport'):
+        out.append(('LIST 1.\n  The first list, a hierarchical element.\n\nITEMS\n  ITEM (a)\n    an item of the block list\n', root, ''))
+        out.append(('ITEMS\n  ITEM (a)\n    x\n\nLIST 1.\n  y\n\nITEMS\n  ITEM (a)\n    z\n\nLIST 2\n  w\n', root, 'p_1'))
+    out.append(('SEC 1. - Quoting\n  QUOTE\n    ITEMS\n      ITEM (a)\n        x\n    LIST 1.\n      y\n', 'act', 'frag'))
+    out.append(('x\nSCHEDULE\n  LIST 1\n    a\n  ITEMS\n    ITEM 1\n      b\n  BLOCKLIST\n    ITEM 2\n      c\n  LIST 2\n    d\n', 'act', ''))
     for depth in (24, 40, 70):
         out.append((''.join('  ' * i + 'SUBPARA (a)\n' for i in range(depth)) + '  ' * depth + 'text\n' + '  ' * depth + 'more\n', 'doc', ''))
         out.append((''.join('  ' * i + 'SEC %d\n' % (i + 1) for i in range(depth)) + '  ' * depth + 'text\n', 'act', 'part_' + 'x' * 40))
